@@ -86,6 +86,13 @@ def activity(events):
     return out
 
 
+def nid(sid, x):
+    """Request ids are sid*1000 + k: inside Coq they are nat numerals, which must stay small — the scenario-local k is
+    used (ids are only ever compared within one scenario); anything that is not an id of this scenario becomes 999."""
+    k = x - sid * 1000
+    return k if 0 < k < 999 else (0 if x == 0 else 999)
+
+
 def coq_cap_snap(sid, sc, snap, active, done, events):
     owner = []
     for inst in snap["insts"]:
@@ -93,16 +100,16 @@ def coq_cap_snap(sid, sc, snap, active, done, events):
         ids |= set(inst.get("req_ids") or [])      # request objects under ANY key (a request may inject nothing but its Req)
         for q in sorted(ids):
             owner.append((inst["tag"], q))
-    ev = coq_list(["(%s, %s)" % (coq_bool(a), coq_nat(q)) for a, q in activity(events)])
+    ev = coq_list(["(%s, %s)" % (coq_bool(a), coq_nat(nid(sid, q))) for a, q in activity(events)])
     return "mkCS %s %s %s %s %s %s %s %s %s" % (
         coq_nat(sid), coq_nat(sc["min"]), coq_nat(sc["max"]), coq_list([coq_nat(t) for t in snap["free"]]), coq_list([coq_nat(t) for t in snap["addl"]]),
-        coq_list(["(%s, %s)" % (coq_nat(t), coq_nat(q)) for t, q in owner]), coq_list([coq_nat(q) for q in active]), ev, coq_list([coq_nat(q) for q in done]))
+        coq_list(["(%s, %s)" % (coq_nat(t), coq_nat(nid(sid, q))) for t, q in owner]), coq_list([coq_nat(nid(sid, q)) for q in active]), ev, coq_list([coq_nat(nid(sid, q)) for q in done]))
 
 
 def coq_req_obs(sid, r):
     vals = [v % 1000000 for v in r["result"].values() if v >= 0]
     same = r.get("result_reread") == r["result"]
-    return "mkRO %s %s %s %s %s %s" % (coq_nat(r["id"]), coq_nat(sid), coq_list([coq_nat(v) for v in vals]), coq_nat(max(0, r["out"])), coq_bool(same), coq_bool(r["out"] != 0))
+    return "mkRO %s %s %s %s %s %s" % (coq_nat(nid(sid, r["id"])), coq_nat(sid), coq_list([coq_nat(nid(sid, v)) for v in vals]), coq_nat(nid(sid, max(0, r["out"]))), coq_bool(same), coq_bool(r["out"] != 0))
 
 
 def parse_rule(s):
